@@ -610,14 +610,20 @@ def measure_mellin(cell, sample, seed, interior=False):
         pts.append([int(min(40, math.floor(4.0 * r_k * dmin))), decade(w)])
         detail.append({"k": k, "x": float(grid[k]), "r_dmin": r_k * dmin, "worst": w, "at_j_value": at})
     worst_in = None
-    if interior and deg >= 2:
+    interm = 0
+    if deg >= 2:
+        # gross interior clause: arbitrary points, also in the last area (x <= 0.99), must give a
+        # finite value within 0.1 of evaluate_x (clean tree: <= 1.5e-2 inside, <= 1e-3 in the last area)
         worst_in = 0.0
-        for _ in range(4):
-            x = math.exp(rng.uniform(math.log(grid[0]), math.log(grid[-2])))
+        xs = [math.exp(rng.uniform(math.log(grid[0]), math.log(grid[-2]))) for _ in range(2)]
+        xs += [math.exp(rng.uniform(math.log(grid[-2]), math.log(0.99))) for _ in range(2)] if grid[-2] < 0.98 else []
+        for x in xs:
             for j in rng.sample(range(n), min(n, 4)):
                 val = invert(label, math.log(x), disp[j].areas_representation)
-                worst_in = max(worst_in, abs(val - float(disp[j].evaluate_x(x))))
-    rec = {"kind": "mellin", "cell": cell, "sample": int(sample), "pts": pts, "pairs": int(npairs)}
+                d = abs(val - float(disp[j].evaluate_x(x)))
+                worst_in = max(worst_in, d) if d == d and worst_in == worst_in else float("nan")
+        interm = 9999 if worst_in != worst_in or worst_in == float("inf") else int(min(9999, round(1000 * worst_in)))
+    rec = {"kind": "mellin", "cell": cell, "sample": int(sample), "pts": pts, "pairs": int(npairs), "interm": int(interm)}
     rp = {"cell": cell, "sample": sample, "grid": [float(x) for x in grid], "deg": deg, "nodes": detail,
           "interior_worst": worst_in, "interior_r_dmin_min": 0.4 * 16.0 / (0.1 - float(u[0])) * dmin}
     return rec, rp
